@@ -1668,6 +1668,17 @@ impl<'a> Gen<'a> {
                             items.push("\"c\"".into());
                         }
                         let a = self.fresh("a");
+                        if self.rng.chance(0.5) {
+                            // members are then-derived promises whose values are fresh objects: once a
+                            // member has settled, only the combinator's own state holds its result
+                            self.tag("promise-all-derived-members");
+                            let comb = "all"; // (allSettled over pending promises: KF-C08-2, quarantined)
+                            let wrapped: Vec<String> = items.iter().map(|it| format!("Promise.resolve({}).then((v: any) => ({{ n: v, l: [{{}}] }}))", it)).collect();
+                            return Node::leaf(format!(
+                                "{{ const {a}: any = await Promise.{comb}([{}]); __log.push(\"pa:\" + JSON.stringify({a})); }}",
+                                wrapped.join(", ")
+                            ));
+                        }
                         self.declare(&a, Ty::Arr, true);
                         self.tag("promise-all");
                         return Node::leaf(format!("let {}: any = await Promise.all([{}]);", a, items.join(", ")));
@@ -2067,6 +2078,9 @@ pub const MATRIX_EXT: &[&str] = &[
     /* 109 */ r#"((m: any) => { const out: any[] = []; m.forEach((x: any, k: any) => { if (out.length === 0) { m.clear(); [{}, {}, {}]; } out.push({ v: x.v, k: k.id }); }); return out; })(new Map(@A.map((o: any) => [{ id: o.v }, o])))"#,
     /* 110 */ r#"((st: any) => { const out: any[] = []; st.forEach((x: any) => { if (out.length === 0) { st.clear(); [{}, {}, {}]; } out.push({ v: x.v }); }); return out; })(new Set(@A.map((o: any) => ({ v: o.v }))))"#,
     /* 111 */ r#"((a: any[]) => Array.from({ length: 3, 0: a[0], get 1() { a.length = 0; [{}, {}]; return { v: @N }; }, 2: a[1] } as any, (o: any) => o ?? { v: -1 }))(@A.concat([{ v: 1 }]))"#,
+    /* 113 */ r#"(() => { const rs: any[] = []; const out: any[] = []; Promise.all(@A.map((o: any) => new Promise((res: any) => { rs.push(res); }).then((x: any) => ({ v: x, l: [{}], from: o.v })))).then((all: any[]) => { for (const x of all) out.push(x); }); rs.forEach((f: any, i: number) => { f(i); [{}, {}]; }); return out; })()"#,
+    /* 114 */ r#"(() => { const rs: any[] = []; const out: any[] = []; Promise.allSettled(@A.map((o: any, i: number) => new Promise((res: any, rej: any) => { rs.push(i % 2 ? rej : res); }).then((x: any) => ({ v: x, l: [{}] }), (e: any) => { throw { v: e, why: [{}] }; }))).then((all: any[]) => { for (const x of all) out.push({ v: (x.value ?? x.reason).v, s: x.status }); }); rs.forEach((f: any, i: number) => { f(i); [{}, {}]; }); return out; })()"#,
+    /* 115 */ r#"(() => { const rs: any[] = []; const out: any[] = []; Promise.race(@A.map((o: any) => new Promise((res: any) => { rs.push(res); }).then((x: any) => ({ v: x, l: [{}] })))).then((w: any) => { out.push(w); }); Promise.any(@A.map((o: any) => new Promise((res: any) => { rs.push(res); }).then((x: any) => ({ v: x, m: [{}] })))).then((w: any) => { out.push(w); }); rs.reverse().forEach((f: any, i: number) => { f(i); [{}, {}]; }); return out; })()"#,
     /* 112 */ r#"((a: any[]) => [Object.assign({ v: 0 }, { get x(): any { a.length = 0; return [{}, {}]; } }, { y: a[0] }, ...a.map((o: any, i: number) => ({ ["z" + i]: { w: o.v } })))])(@A.concat([{ v: 1 }]))"#,
 ];
 
